@@ -86,6 +86,9 @@ def strategy(tier):
         # every sleep may last longer than asked for (loaded machine): the
         # deadline is a clock time, not a count of polls
         oversleep=st.sampled_from([0, 0, 0, 0.5, 2.0, 3.0]),
+        # non-children are invisible in /proc (hidepid=2): only kill(pid, 0)
+        # can tell whether they are still there
+        hidden=st.sampled_from([False, False, True]),
     ))
 
 
@@ -198,6 +201,10 @@ def run_case(case):
                 sched.add(pid, et, status_word(pr["status"]))
             obj = psutil.Process.__new__(psutil.Process)
             obj._init(pid, _ignore_nsp=True)
+            if case.get("hidden") and kind == "nonchild":
+                # (after the object was built: e.g. the process changed user)
+                k.procs[pid].hidden = True
+                labels.add("nonchild-invisible-in-procfs")
             objs.append(obj)
             specs.append((pid, kind, et, pr["status"]))
         # processes that already exited before the call
